@@ -124,7 +124,7 @@ func launchGate(w *World, r *Report, rule string) {
 }
 
 func depVerdict(w *World, r *Report, rule string) {
-	cs := w.FuncByName("taskctl", "checkStatus")
+	cs := w.FuncByRole("taskctl", "checkStatus", func(f *ssa.Function) bool { return recvIs(f, "") && sigHas(f, []string{"scheduler.ExecutionGraph", "scheduler.Stage"}, []string{"bool"}) })
 	if cs == nil {
 		r.Undecided(rule, "taskctl.checkStatus", "-", "not found")
 		return
